@@ -134,6 +134,10 @@ def run_scenario(task):
         fwd = {x: x for x in scn["statuses"]}
     back = {v: k for k, v in fwd.items()}
     IC = {u: fwd[st0[u - 1]] for u in nodes}
+    if task.get("oversized_ic"):
+        # an initial condition prepared for a larger population than the contact network handed over
+        for extra in range(n + 1, n + 4):
+            IC[extra] = fwd[scn["statuses"][extra % len(scn["statuses"])]]
     rs_all = [fwd[x] for x in scn["statuses"]]
     # return_statuses may be any subset of the statuses
     rs = rs_all if not task.get("ret_subset") else [x for k, x in enumerate(rs_all) if k != (task["ret_subset"] - 1) % len(rs_all)]
